@@ -113,6 +113,19 @@ def gen_cases(tier, seed, ctx):
             for kind, mb in body_mutants(rnd, body, mr, len(B), nm):
                 for cuts in frag_kinds(rnd, len(mb), small)[: (2 if tier == 'quick' else 5)]:
                     add('body/' + kind, t, flags, limit, hdrs, mb, cuts, rnd.choice(['stop', 'cont', 'clear']))
+            # (a') a well-formed body with EMPTY fragments at the seams: at the start, right after the last payload byte of each
+            # part, right after each part header, then the rest in one or several pieces
+            seams = [0]
+            pos = 0
+            for (s0, e0) in mr:
+                marker = b'bytes %d-%d/%d\r\n\r\n' % (s0, e0, len(B))
+                j = body.find(marker, pos)
+                if j < 0: break
+                p0 = j + len(marker); seams.append(p0); pos = p0 + (e0 - s0 + 1); seams.append(pos)
+            for sm in seams:
+                for tailcut in ('', ',1', ',0,7'):
+                    for mode in ('stop', 'clear'):
+                        add('seam-empty-fragment', t, flags, limit, hdrs, body, ('%d,0%s' % (sm, tailcut)) if sm else ('0,0%s' % tailcut), mode)
             # (b) broken boundary parameters with the body a server using that boundary verbatim would send
             for bb in BAD_BOUNDARIES + [bytes(rnd.getrandbits(8) | 1 for _ in range(rnd.choice([1, 3, 20]))) for _ in range(3)]:
                 if rnd.random() > (0.35 if tier == 'quick' else 1.0): continue
